@@ -118,7 +118,7 @@ def enumerate_cases(tier, seed):
                     for pos in ("mid1", "mid4"):
                         cases.append({"program": program, "input": inp, "prior": prior, "rng": seed, "inplace": True,
                                       "fault": {"stage": "write_gro", "pos": pos, "exc": "RuntimeError"}})
-                for odd in ("dotdot", "symlink"):
+                for odd in ("dotdot", "symlink", "relative"):
                     cases.append({"program": program, "input": inp, "fault": None, "prior": prior, "rng": seed,
                                   "odd_path": odd})
                 # fault-free runs whose output name has another ending, or none
@@ -285,6 +285,9 @@ def install_fault(program, fault, state):
     return lambda: setattr(owner, name, orig)
 
 
+CWD0 = os.getcwd()
+
+
 def check(spec, ctx):
     # in part of the cases the directory for temporary files lies on another file system than the output
     # (a tmpfs next to a disk): moving a finished temporary file into place is then a copy, not a rename
@@ -333,9 +336,14 @@ def _check(spec, ctx, other_tmp):
         (outdir / "sub").mkdir()
         if spec["odd_path"] == "dotdot":
             target_arg = outdir / "sub" / ".." / target.name
+        elif spec["odd_path"] == "relative":
+            # the output is named relative to the working directory (the inputs live elsewhere)
+            os.chdir(outdir)
+            target_arg = Path(target.name)
         else:
             (ctx.dir / "outlink").symlink_to(outdir, target_is_directory=True)
             target_arg = ctx.dir / "outlink" / target.name
+    cwd0 = CWD0
     before = snapshot(outdir)
     state = {"reached": False}
     undo = install_fault(program, fault, state) if fault else (lambda: None)
@@ -389,6 +397,7 @@ def _check(spec, ctx, other_tmp):
         error = err
     finally:
         undo()
+        os.chdir(cwd0)
     after = snapshot(outdir)
     label = "no_fault" if not fault else f"{program}:{fault['stage']}:{fault['pos']}"
     if fault and not natural and state.get("unresolved"):
